@@ -27,16 +27,27 @@ def run_case(c):
             for key, v in last.items():
                 o[key] = enc.arr(v, 1000)
             o["data_after"] = enc.arr(s.original_data, 1000)
+            # the documented in-place normalisation, then the same surrogates again on the same object: they
+            # are surrogates of the data the object holds NOW
+            # (the in-place normalisation is defined for floating-point data: an integer array is refused
+            # by numpy's casting rule - not a wrong result, so that representation skips the stage)
+            if all(np.std(row) > 0 for row in data) and np.asarray(s.original_data).dtype.kind == "f":
+                s.normalize_original_data()
+                o["data_norm"] = enc.arr(s.original_data, 1000)
+                o["n_corr"] = enc.arr(s.correlated_noise_surrogates(), 1000)
+                o["n_aaft"] = enc.arr(s.AAFT_surrogates(), 1000)
+                amp, spec = s.refined_AAFT_surrogates(4, output="both")
+                o["n_ramp"], o["n_rspec"] = enc.arr(amp, 1000), enc.arr(spec, 1000)
         else:
             x = np.array([c["x"], c["x2"]], dtype=float)
             s = Surrogates(original_data=enc.represent(x, c["case"])[0], silence_level=3)
             if c.get("prior"):
                 try:
-                    s.twin_surrogates(dimension=3 - c["dim"], delay=1, threshold=8.0, min_dist=c["md"])
+                    s.twin_surrogates(dimension=3 - c["dim"], delay=1, threshold=float(c["thr"]), min_dist=c["md"])
                 except Exception:
                     pass
-            surr = s.twin_surrogates(dimension=c["dim"], delay=1, threshold=8.0, min_dist=c["md"])
-            tw = s.twins(8.0, min_dist=c["md"])
+            surr = s.twin_surrogates(dimension=c["dim"], delay=1, threshold=float(c["thr"]), min_dist=c["md"])
+            tw = s.twins(float(c["thr"]), min_dist=c["md"])
             o["twins"] = [[int(v) for v in t] for t in tw[0]]
             o["surr"] = [int(round(v)) for v in surr[0]]
             o["twins2"] = [[int(v) for v in t] for t in tw[1]]
@@ -44,7 +55,7 @@ def run_case(c):
             # the same promise made by RecurrencePlot.twins / twin_surrogates (first series)
             from pyunicorn.timeseries import RecurrencePlot
             rp = RecurrencePlot(np.array(c["x"], dtype=float), dim=c["dim"], tau=1, metric="supremum",
-                                threshold=8.0, silence_level=3)
+                                threshold=float(c["thr"]), silence_level=3)
             n = rp.N
             o["rp_twins"] = [sorted(int(v) for v in t) for t in rp.twins(min_dist=c["md"])[:n]]
             ts = rp.twin_surrogates(n_surrogates=2, min_dist=c["md"])
@@ -54,7 +65,7 @@ def run_case(c):
             # itself (no twins at all), back at 8 the twins are those of the first matrix again
             rp.set_fixed_threshold(0.5)
             o["rp_twins_low"] = [len(t) for t in rp.twins(min_dist=c["md"])[:n]]
-            rp.set_fixed_threshold(8.0)
+            rp.set_fixed_threshold(float(c["thr"]))
             o["rp_twins_back"] = [sorted(int(v) for v in t) for t in rp.twins(min_dist=c["md"])[:n]]
     except Exception as ex:
         o["exc"] = type(ex).__name__
